@@ -14,6 +14,7 @@ import (
 	"sort"
 	"strings"
 	"sync"
+	"sync/atomic"
 	"time"
 
 	"golang.org/x/tools/go/packages"
@@ -419,6 +420,7 @@ func main() {
 	jobs := flag.Int("j", 14, "solver workers")
 	cpuprof := flag.String("cpuprofile", "", "write a CPU profile of the engine")
 	loadOnly := flag.Bool("loadonly", false, "only load and type-check the harness overlay, write no evidence")
+	qTimeoutF := flag.Int("qtimeout", 0, "debugging: per-query solver limit in seconds (overrides the property configuration; the run writes no evidence)")
 	flag.Parse()
 	if *cpuprof != "" {
 		f, err := os.Create(*cpuprof)
@@ -513,10 +515,14 @@ func main() {
 	if t, ok := cfg.TimeoutS[tier]; ok {
 		qTimeout = time.Duration(t) * time.Second
 	}
+	if *qTimeoutF > 0 {
+		qTimeout = time.Duration(*qTimeoutF) * time.Second
+		partialRun = true
+	}
 	known := loadKnown(cfg.ID)
 	knownGlobal = known
 
-	rep := &Report{cfg: &cfg, seed: seed, known: known}
+	rep := &Report{cfg: &cfg, seed: seed, known: known, queryTOs: int64(qTimeout / time.Second)}
 	var all []*HarnessResult
 	for _, p := range pkgs {
 		rel := strings.TrimPrefix(p.PkgPath, modPath+"/")
@@ -555,7 +561,13 @@ func main() {
 	for _, p := range pools {
 		rep.queries += p.Queries
 		rep.solverMS += p.TotalMS
+		if p.MaxMS > rep.maxQueryMS {
+			rep.maxQueryMS = p.MaxMS
+		}
 		p.close()
+	}
+	if s := atomic.LoadInt64(&slowestQueryMS); s > rep.maxQueryMS {
+		rep.maxQueryMS = s
 	}
 	rep.loadMS = loadMS
 	rep.wall = time.Since(start).Seconds()
@@ -856,6 +868,9 @@ func doReplay(path string) int {
 	if r.Err != "" {
 		fmt.Println(r.Err)
 		return 2
+	}
+	for _, o := range r.Obs {
+		fmt.Println("REPLAY-OBSERVED", o)
 	}
 	for _, f := range r.Fails {
 		fmt.Println("REPLAY-FAIL", f)
